@@ -1,5 +1,116 @@
 package main
 
-import "verif/harness/core"
+import (
+	"fmt"
+	"strings"
 
-func pinned(r *core.Run) {}
+	"verif/harness/core"
+	"verif/harness/g9blib"
+)
+
+// pinnedCase is one hand-written witness of a known finding: after setup, the cell (row selected by
+// where, column col) of query must be `want` (the MySQL value); the finding still fails while it is not.
+type pinnedCase struct {
+	sigs  []string
+	what  string
+	setup []string
+	query string
+	where map[string]string
+	col   string
+	want  *string // nil = NULL; for row-existence witnesses use wantRows
+	// wantRows >= 0: the number of rows matching where must equal it (col/want unused)
+	wantRows int
+}
+
+func str(s string) *string { return &s }
+
+func pinned(r *core.Run) {
+	base := []string{
+		"CREATE TABLE t (id INT NOT NULL, a INT, s VARCHAR(20) DEFAULT 'abc', dd DATE DEFAULT '2020-01-02', tm TIME, u INT, " +
+			"ts DATETIME DEFAULT CURRENT_TIMESTAMP ON UPDATE CURRENT_TIMESTAMP, PRIMARY KEY (id), KEY ix (a, s(5)), UNIQUE KEY ua (u), KEY ub (u))",
+		"CREATE PROCEDURE pp(IN x INT) COMMENT 'it''s' BEGIN SET @v = x; END",
+		"CREATE TABLE old_name (id INT PRIMARY KEY, b INT, KEY ib (b))",
+		"RENAME TABLE old_name TO new_name",
+		"CREATE DATABASE d2",
+		"CREATE TRIGGER trg BEFORE INSERT ON t FOR EACH ROW SET @x = 1",
+	}
+	cases := []pinnedCase{
+		{[]string{"COLUMNS:wrong-value:COLUMN_DEFAULT:date-literal-printed-with-time"}, "COLUMN_DEFAULT of a DATE column shows a time part", nil,
+			"SELECT * FROM information_schema.COLUMNS WHERE TABLE_SCHEMA = 'd'", map[string]string{"TABLE_NAME": "t", "COLUMN_NAME": "dd"}, "COLUMN_DEFAULT", str("2020-01-02"), -1},
+		{[]string{"COLUMNS:wrong-value:COLUMN_KEY:non-leading-index-column-flagged-MUL", "SHOW-COLUMNS:wrong-value:Key:non-leading-index-column-flagged-MUL"}, "COLUMN_KEY is MUL for a column that is only a non-leading part of an index", nil,
+			"SELECT * FROM information_schema.COLUMNS WHERE TABLE_SCHEMA = 'd'", map[string]string{"TABLE_NAME": "t", "COLUMN_NAME": "s"}, "COLUMN_KEY", str(""), -1},
+		{[]string{"COLUMNS:wrong-value:COLUMN_KEY:unique-column-flagged-MUL-when-in-another-index", "SHOW-COLUMNS:wrong-value:Key:unique-column-flagged-MUL-when-in-another-index"}, "COLUMN_KEY is MUL instead of UNI for a unique column that also occurs in another index", nil,
+			"SELECT * FROM information_schema.COLUMNS WHERE TABLE_SCHEMA = 'd'", map[string]string{"TABLE_NAME": "t", "COLUMN_NAME": "u"}, "COLUMN_KEY", str("UNI"), -1},
+		{[]string{"COLUMNS:wrong-value:COLUMN_TYPE:time-printed-as-time(6)", "SHOW-COLUMNS:wrong-value:Type:time-printed-as-time(6)"}, "COLUMN_TYPE of a TIME column is time(6)", nil,
+			"SELECT * FROM information_schema.COLUMNS WHERE TABLE_SCHEMA = 'd'", map[string]string{"TABLE_NAME": "t", "COLUMN_NAME": "tm"}, "COLUMN_TYPE", str("time"), -1},
+		{[]string{"COLUMNS:wrong-value:EXTRA:on-update-clause-missing", "SHOW-COLUMNS:wrong-value:Extra:on-update-clause-missing"}, "EXTRA omits 'on update CURRENT_TIMESTAMP'", nil,
+			"SELECT * FROM information_schema.COLUMNS WHERE TABLE_SCHEMA = 'd'", map[string]string{"TABLE_NAME": "t", "COLUMN_NAME": "ts"}, "EXTRA", str("DEFAULT_GENERATED on update CURRENT_TIMESTAMP"), -1},
+		{[]string{"ROUTINES:wrong-value:ROUTINE_DEFINITION:text-lost-its-first-characters"}, "ROUTINE_DEFINITION loses its first character(s) when a characteristic before the body contains an escaped character", nil,
+			"SELECT * FROM information_schema.ROUTINES WHERE ROUTINE_SCHEMA = 'd'", map[string]string{"ROUTINE_NAME": "pp"}, "ROUTINE_DEFINITION", str("BEGIN SET @v = x; END"), -1},
+		{[]string{"SHOW-COLUMNS:wrong-value:Default:got-sql-quoted-literal"}, "SHOW COLUMNS prints string defaults as quoted SQL literals", nil,
+			"SHOW COLUMNS FROM t", map[string]string{"Field": "s"}, "Default", str("abc"), -1},
+		{[]string{"SHOW-INDEXES:wrong-value:Sub_part:expected-number-got-NULL"}, "SHOW INDEXES never shows the prefix length", nil,
+			"SHOW INDEXES FROM t", map[string]string{"Key_name": "ix", "Seq_in_index": "2"}, "Sub_part", str("5"), -1},
+		{[]string{"STATISTICS:wrong-value:SUB_PART:expected-NULL-got-0"}, "STATISTICS.SUB_PART is 0 instead of NULL for an unprefixed part of an index that has a prefixed part", nil,
+			"SELECT * FROM information_schema.STATISTICS WHERE TABLE_SCHEMA = 'd'", map[string]string{"TABLE_NAME": "t", "INDEX_NAME": "ix", "SEQ_IN_INDEX": "1"}, "SUB_PART", nil, -1},
+		{[]string{"SHOW-INDEXES:wrong-value:Table:old-name-after-rename-table"}, "SHOW INDEXES keeps the old table name after RENAME TABLE", nil,
+			"SHOW INDEXES FROM new_name", map[string]string{"Key_name": "ib"}, "Table", str("new_name"), -1},
+		{[]string{"SHOW-TRIGGERS:extra-row:from-clause-ignored", "SHOW-TRIGGERS:missing-row:from-clause-ignored"}, "SHOW TRIGGERS FROM <db> ignores the FROM clause and lists the current database's triggers", nil,
+			"SHOW TRIGGERS FROM d2", map[string]string{"Trigger": "trg"}, "", nil, 0},
+	}
+	e := g9blib.NewEngNamed("d")
+	defer e.Close()
+	s := e.NewSess()
+	for _, q := range base {
+		s.MustExec(q)
+	}
+	ctx := s.Ctx()
+	for _, c := range cases {
+		res := s.Exec(c.query)
+		got, rows := "<row not found>", 0
+		fails := true
+		if res.Failed() {
+			got = fmt.Sprint("query failed: ", res.Err)
+		} else {
+			for _, row := range res.Rows {
+				match := true
+				var cellV *string
+				for k, sc := range res.Schema {
+					v := wire(ctx, sc.Type, row[k])
+					if want, ok := c.where[sc.Name]; ok {
+						if v == nil || *v != want {
+							match = false
+						}
+					}
+					for wk, want := range c.where {
+						if strings.EqualFold(wk, sc.Name) && wk != sc.Name && (v == nil || *v != want) {
+							match = false
+						}
+					}
+					if strings.EqualFold(sc.Name, c.col) {
+						cellV = v
+					}
+				}
+				if match {
+					rows++
+					got = cell(cellV)
+					if c.wantRows < 0 {
+						fails = (cellV == nil) != (c.want == nil) || (cellV != nil && *cellV != *c.want)
+					}
+				}
+			}
+			if c.wantRows >= 0 {
+				fails = rows != c.wantRows
+				got = fmt.Sprintf("%d matching rows", rows)
+			}
+		}
+		want := cell(c.want)
+		if c.wantRows >= 0 {
+			want = fmt.Sprintf("%d matching rows", c.wantRows)
+		}
+		for _, sig := range c.sigs {
+			r.Pinned(sig, fmt.Sprintf("%s [%s %v %s: MySQL %s, engine %s]", c.what, c.query, c.where, c.col, want, got), fails,
+				map[string]any{"setup": base, "query": c.query, "where": c.where, "column": c.col, "expected": want, "got": got})
+		}
+	}
+}
